@@ -1,6 +1,10 @@
-\* GF(2^8), AES polynomial x^8 + x^4 + x^3 + x + 1: all 65536 pairs (a, b), third operand quantified over all 256 elements
+\* GF(2^8), AES polynomial x^8 + x^4 + x^3 + x + 1: all 256 elements as first operand, all 65536 pairs of second and third
+\* operand: every one of the 16.7 million triples
 CONSTANTS M = 8
 LowN = 27
+ASel = 0
+ASeed = 0
 INIT Init
 NEXT Next
-INVARIANTS Closed Commutative Associative Distributive Neutral Inverses NoZeroDivisor ZeroHasNoInverse PowIsRepeatedProduct
+CHECK_DEADLOCK FALSE
+INVARIANTS TablesClosed Commutative Associative Distributive Neutral Inverses NoZeroDivisor ZeroHasNoInverse PowIsRepeatedProduct
